@@ -226,4 +226,73 @@ def semADF : List (CPset × Tree) → List (Str × (List Val → Option Val))
     let inner := semADF rest
     (ps.name, compile (withAdfs ps.env inner) ps.arguments t) :: inner
 
+/-! ## The integer / bool / float primitive signature used by the correspondence
+
+Python semantics of the functions the harness registers: `bool` is a subclass of `int` (`True + 1 == 2`),
+a float operand makes the operation a float operation, `max` returns the first maximal argument,
+`and` returns an operand, `if_then_else` tests truthiness. -/
+
+def isFlt : Val → Bool
+  | .flt _ => true
+  | _ => false
+
+def toI : Val → Int
+  | .int i => i
+  | .bool b => if b then 1 else 0
+  | .flt _ => 0
+
+def toF : Val → Float
+  | .int i => Float.ofInt i
+  | .bool b => if b then 1.0 else 0.0
+  | .flt x => x
+
+def truthy : Val → Bool
+  | .int i => i != 0
+  | .bool b => b
+  | .flt x => x != 0.0
+
+def arith (fi : Int → Int → Int) (ff : Float → Float → Float) (a b : Val) : Val :=
+  if isFlt a || isFlt b then .flt (ff (toF a) (toF b)) else .int (fi (toI a) (toI b))
+
+def vlt (a b : Val) : Bool := if isFlt a || isFlt b then toF a < toF b else toI a < toI b
+
+/-- the Python functions the harness registers, by id: `add sub mul neg max2 max3 ite lt and not id` -/
+def applyOp (op : String) (args : List Val) : Option Val :=
+  match op, args with
+  | "add", [a, b] => some (arith (· + ·) (· + ·) a b)
+  | "sub", [a, b] => some (arith (· - ·) (· - ·) a b)
+  | "mul", [a, b] => some (arith (· * ·) (· * ·) a b)
+  | "neg", [a] => some (match a with | .flt x => .flt (-x) | v => .int (-(toI v)))
+  | "max2", [a, b] => some (if vlt a b then b else a)
+  | "max3", [a, b, c] => some (let r := if vlt a b then b else a; if vlt r c then c else r)
+  | "ite", [c, a, b] => some (if truthy c then a else b)
+  | "lt", [a, b] => some (.bool (vlt a b))
+  | "and", [a, b] => some (if truthy a then b else a)
+  | "not", [a] => some (.bool (!truthy a))
+  | "id", [a] => some a
+  | _, _ => none
+
+
+/-- the session model of `compileADF` (fixed code, gp.py:545-551): every primitive set has a current
+`context`; a call REBINDS `pset.context = dict(pset.context, **adfdict)` for each set (the new contexts
+persist into later calls) and compiles the set's tree in that new namespace. -/
+structure PSig where
+  name : Str
+  arguments : List Str
+
+/-- the loop over `reversed(list(zip(psets, expr)))`, innermost set first, as a right-to-left recursion:
+returns `adfdict`, the new contexts (in `psets` order) and `func` -/
+def sessGo : List (PSig × Env × Tree) → List (Str × (List Val → Option Val)) × List Env × Option (List Val → Option Val)
+  | [] => ([], [], none)
+  | (sg, ctx, t) :: rest =>
+    let r := sessGo rest
+    let ctx' := withAdfs ctx r.1                       -- pset.context = dict(pset.context, **adfdict)
+    let f := compile ctx' sg.arguments t               -- func = compile(subexpr, pset)
+    ((sg.name, f) :: r.1, ctx' :: r.2.1, some f)       -- adfdict.update({pset.name: func})
+
+/-- `zip(psets, expr)` with the sets' current contexts -/
+def mkItems : List PSig → List Env → List Tree → List (PSig × Env × Tree)
+  | sg :: sgs, c :: cs, t :: ts => (sg, c, t) :: mkItems sgs cs ts
+  | _, _, _ => []
+
 end GpCompile
